@@ -152,6 +152,23 @@ def answer (l : String) : String :=
       | some (x, []) => if !(cs.all wf && wf x) then "illformed" else toString (contains cs x)
       | _ => "bad"
     | none => "bad"
+  | "cnt" :: ts =>
+    match pCounted pData ts with
+    | some (cs, ts) =>
+      match pData ts with
+      | some (x, []) => if !(cs.all wf && wf x) then "illformed" else toString (countEq cs x)
+      | _ => "bad"
+    | none => "bad"
+  | "idx" :: ts =>
+    match pCounted pData ts with
+    | some (cs, ts) =>
+      match pData ts with
+      | some (x, []) => if !(cs.all wf && wf x) then "illformed" else
+        match indexOf cs x with
+        | some k => toString k
+        | none => showErr .valueError
+      | _ => "bad"
+    | none => "bad"
   | "rem" :: ts =>
     match pCounted pData ts with
     | some (cs, ts) =>
